@@ -421,7 +421,12 @@ pub fn gen_args(g: &mut Gen, filters: bool) -> SimArgs {
         bf_c: *g.pick(&fr),
         pf_s: *g.pick(&fr),
         bf_s: *g.pick(&fr),
-        seed: g.u64(),
+        // any seed, corner values included (server uses seed + 1)
+        seed: if g.chance(0.1) {
+            *g.pick(&[0, 1, u64::MAX, u64::MAX - 1, 1 << 63])
+        } else {
+            g.u64()
+        },
         via_sim: false,
     }
 }
